@@ -523,7 +523,8 @@ func respguardVarsExtra(t *tr) string {
 		}
 	}
 
-	respguardCanonOf(t, &b, scn, rgFindMethod(scn, "ScenarioGun", "prepareRequest"), "scenarioPrepareRequest", "`ScenarioGun.prepareRequest` (the error of `http.NewRequest` — a URL rendered from response-derived variables may not parse — is returned BEFORE the request is used)")
+	respguardCanonOf(t, &b, scn, rgFindMethod(scn, "ScenarioGun", "prepareRequest"), "scenarioPrepareRequest", "`ScenarioGun.prepareRequest` (for information: the bridge rests on `scenarioPrepareFacts`, which survives edits of what is done with a request that exists)")
+	b.WriteString("/-- what C19 needs of `ScenarioGun.prepareRequest` (the URL may be rendered from response-derived variables and not\nparse): exactly one `http.NewRequest`, at the top level; the next statement that mentions its results is\n`if err != nil { return nil, … }` with nothing but the return inside; no other statement mentions the request before -/\ndef scenarioPrepareFacts : List String := " + leanStrList(respguardPrepareFacts(scn, rgFindMethod(scn, "ScenarioGun", "prepareRequest"))) + "\n\n")
 	if ss := rgFindMethod(scn, "ScenarioGun", "shootStep"); ss != nil {
 		var pre []ast.Stmt
 		for _, st := range ss.Body.List {
@@ -579,4 +580,86 @@ func respguardVarsExtra(t *tr) string {
 	b.WriteString("/-- index / slice expressions of these files -/\ndef varsIndexings : List String := " + leanStrList(idx) + "\n\n")
 	b.WriteString("/-- writes to maps not created in the same function -/\ndef varsMapWritesWithoutMake : List String := " + leanStrList(mapw) + "\n")
 	return b.String()
+}
+
+// respguardPrepareFacts: order-free facts about ScenarioGun.prepareRequest (see the doc of `scenarioPrepareFacts`).
+func respguardPrepareFacts(p *packages.Package, fd *ast.FuncDecl) []string {
+	if fd == nil || fd.Body == nil {
+		return []string{"function not found"}
+	}
+	mentions := func(n ast.Node, objs ...types.Object) bool {
+		found := false
+		ast.Inspect(n, func(m ast.Node) bool {
+			if id, ok := m.(*ast.Ident); ok {
+				o := p.TypesInfo.ObjectOf(id)
+				for _, w := range objs {
+					found = found || (o != nil && o == w)
+				}
+			}
+			return !found
+		})
+		return found
+	}
+	isNewRequest := func(e ast.Expr) bool {
+		ce, ok := e.(*ast.CallExpr)
+		if !ok {
+			return false
+		}
+		s := oneLine(nodeString(p, ce.Fun))
+		return s == "http.NewRequest" || s == "http.NewRequestWithContext"
+	}
+	calls := 0
+	ast.Inspect(fd.Body, func(n ast.Node) bool {
+		if e, ok := n.(ast.Expr); ok && isNewRequest(e) {
+			calls++
+		}
+		return true
+	})
+	topLevel, checkedNext, nilOnError, unusedOnError := false, false, false, false
+	for i, st := range fd.Body.List {
+		as, ok := st.(*ast.AssignStmt)
+		if !ok || len(as.Lhs) != 2 || len(as.Rhs) != 1 || !isNewRequest(as.Rhs[0]) {
+			continue
+		}
+		reqID, ok1 := as.Lhs[0].(*ast.Ident)
+		errID, ok2 := as.Lhs[1].(*ast.Ident)
+		if !ok1 || !ok2 {
+			continue
+		}
+		topLevel = true
+		req, er := p.TypesInfo.ObjectOf(reqID), p.TypesInfo.ObjectOf(errID)
+		for _, nx := range fd.Body.List[i+1:] {
+			if !mentions(nx, req, er) {
+				continue
+			}
+			ifs, ok := nx.(*ast.IfStmt)
+			if !ok || ifs.Init != nil || ifs.Else != nil {
+				break
+			}
+			be, ok := ifs.Cond.(*ast.BinaryExpr)
+			if !ok || be.Op != token.NEQ {
+				break
+			}
+			x, y := oneLine(nodeString(p, be.X)), oneLine(nodeString(p, be.Y))
+			if !((mentions(be.X, er) && y == "nil") || (mentions(be.Y, er) && x == "nil")) {
+				break
+			}
+			checkedNext = true
+			unusedOnError = !mentions(ifs.Body, req)
+			if n := len(ifs.Body.List); n > 0 {
+				if rs, ok := ifs.Body.List[n-1].(*ast.ReturnStmt); ok && len(rs.Results) == 2 {
+					nilOnError = oneLine(nodeString(p, rs.Results[0])) == "nil" && oneLine(nodeString(p, rs.Results[1])) != "nil"
+				}
+			}
+			break
+		}
+		break
+	}
+	return []string{
+		fmt.Sprintf("newRequestCalls=%d", calls),
+		fmt.Sprintf("newRequestAtTopLevel=%v", topLevel),
+		fmt.Sprintf("errorCheckedBeforeAnyUse=%v", checkedNext),
+		fmt.Sprintf("requestUntouchedOnError=%v", unusedOnError),
+		fmt.Sprintf("returnsNilRequestAndAnError=%v", nilOnError),
+	}
 }
